@@ -492,15 +492,25 @@ func checkMirror(c *Check, p *Prog) {
 		}
 		want1, want2 := iT, S.Sub(S.Sub(n, S.Int(1)), iT)
 		has1, has2, other := false, false, false
-		for _, ix := range idxs {
-			switch ix {
-			case want1:
+		// an index may also be selected by the direction flag: ite(forward, i, n-1-i)
+		var leaves func(ix, cond *Term)
+		leaves = func(ix, cond *Term) {
+			if ix.Op == "ite" {
+				leaves(ix.Args[1], S.And(cond, ix.Args[0]))
+				leaves(ix.Args[2], S.And(cond, S.Not(ix.Args[0])))
+				return
+			}
+			switch {
+			case ix == want1 && (cond == S.True || S.Implies(cond, fwd)):
 				has1 = true
-			case want2:
+			case ix == want2 && (cond == S.True || S.Implies(cond, S.Not(fwd))):
 				has2 = true
 			default:
 				other = true
 			}
+		}
+		for _, ix := range idxs {
+			leaves(ix, S.True)
 		}
 		// substituting forward -> !forward and i -> n-1-i must map every transfer onto itself
 		sym := true
